@@ -10,28 +10,31 @@ EXTENDS Integers, Sequences, FiniteSets, TLC
 ValClasses == {"absent", "empty", "long", "punct", "inner_space", "two"}
 Paths == {"proxied", "limited429", "nobackend503", "toolarge413", "plugin401"}
 
-Cases == [reqOn : BOOLEAN, traceOn : BOOLEAN, hdr : {"default", "custom"}, rval : ValClasses,
-          tval : {"absent", "punct"}, path : Paths, plugin : BOOLEAN]
+\* bown: the backend's reply carries ID headers of its own with other values (proxied path only)
+Cases == {c \in [reqOn : BOOLEAN, traceOn : BOOLEAN, hdr : {"default", "custom"}, rval : ValClasses,
+                 tval : {"absent", "punct"}, path : Paths, plugin : BOOLEAN, bown : BOOLEAN] :
+            c.bown => c.path = "proxied"}
 
 Dispatched(c) == c.path = "proxied"
 Supplied(in) == Len(in) >= 1 /\ in[1] # ""
 
 \* one feature: enabled flag, values sent / backend-seen / client-got, name for messages,
 \* touched = some configured plugin also manages this header (the request-id plugin)
-Feature(on, in, b, cl, disp, nm, touched) ==
+\* With bown the backend's own value follows (the proxy relays backend headers, C01): the FIRST value is the ID.
+Feature(on, in, b, cl, disp, nm, touched, bown) ==
   IF on THEN
-    (IF Len(cl) # 1 \/ (Len(cl) = 1 /\ cl[1] = "") THEN <<nm \o "_MissingOnResponse">> ELSE <<>>)
+    (IF Len(cl) = 0 \/ (Len(cl) >= 1 /\ cl[1] = "") \/ (Len(cl) # 1 /\ ~bown) THEN <<nm \o "_MissingOnResponse">> ELSE <<>>)
     \o (IF Supplied(in) /\ Len(cl) >= 1 /\ cl[1] # in[1] THEN <<nm \o "_EchoToClient">> ELSE <<>>)
     \o (IF disp /\ Supplied(in) /\ (Len(b) = 0 \/ (Len(b) >= 1 /\ b[1] # in[1])) THEN <<nm \o "_PassToBackend">> ELSE <<>>)
     \o (IF disp /\ Len(cl) >= 1 /\ (Len(b) = 0 \/ (Len(b) >= 1 /\ b[1] # cl[1])) THEN <<nm \o "_BackendEqClient">> ELSE <<>>)
   ELSE IF touched THEN <<>>
   ELSE (IF disp /\ b # in THEN <<nm \o "_DisabledAltered">> ELSE <<>>)
-       \o (IF cl # <<>> THEN <<nm \o "_DisabledGenerated">> ELSE <<>>)
+       \o (IF cl # <<>> /\ ~bown THEN <<nm \o "_DisabledGenerated">> ELSE <<>>)
 
 \* o = [rin, rb, rc, tin, tb, tc, dispatched]
 Check(c, o) ==
-  Feature(c.reqOn, o.rin, o.rb, o.rc, o.dispatched, "Req", c.plugin /\ c.hdr = "default")
-  \o Feature(c.traceOn, o.tin, o.tb, o.tc, o.dispatched, "Trace", FALSE)
+  Feature(c.reqOn, o.rin, o.rb, o.rc, o.dispatched, "Req", c.plugin /\ c.hdr = "default", c.bown)
+  \o Feature(c.traceOn, o.tin, o.tb, o.tc, o.dispatched, "Trace", FALSE, c.bown)
   \o (IF Dispatched(c) # o.dispatched THEN <<"PathMismatch">> ELSE <<>>)
 
 \* generated identifiers of concurrent requests are pairwise distinct
@@ -44,10 +47,11 @@ CheckBurst(e) == (IF ~Unique(e.rids) THEN <<"Req_NotUnique">> ELSE <<>>) \o (IF 
 \* carries both headers, and the backend saw the values the client gets.
 \* reqH / respH: sets of [n, v] (lower-case names) the backend received / the client received
 Vals(hs, name) == {h.v : h \in {x \in hs : x.n = name}}
-CheckWire(on, reached, reqH, respH) ==
+\* first: the first value of each ID header on the final response ("" if absent) -- a backend may add values of its own
+CheckWire(on, reached, reqH, respH, first) ==
   IF ~on \/ ~reached THEN <<>>
-  ELSE (IF Vals(respH, "x-request-id") = {} THEN <<"Req_MissingOnResponse_wire">> ELSE <<>>)
-       \o (IF Vals(respH, "x-trace-id") = {} THEN <<"Trace_MissingOnResponse_wire">> ELSE <<>>)
-       \o (IF Vals(respH, "x-request-id") # {} /\ Vals(respH, "x-request-id") # Vals(reqH, "x-request-id") THEN <<"Req_BackendEqClient_wire">> ELSE <<>>)
-       \o (IF Vals(respH, "x-trace-id") # {} /\ Vals(respH, "x-trace-id") # Vals(reqH, "x-trace-id") THEN <<"Trace_BackendEqClient_wire">> ELSE <<>>)
+  ELSE (IF first.rid = "" THEN <<"Req_MissingOnResponse_wire">> ELSE <<>>)
+       \o (IF first.tid = "" THEN <<"Trace_MissingOnResponse_wire">> ELSE <<>>)
+       \o (IF first.rid # "" /\ Vals(reqH, "x-request-id") # {first.rid} THEN <<"Req_BackendEqClient_wire">> ELSE <<>>)
+       \o (IF first.tid # "" /\ Vals(reqH, "x-trace-id") # {first.tid} THEN <<"Trace_BackendEqClient_wire">> ELSE <<>>)
 =============================================================================
